@@ -8,7 +8,7 @@ for d in seeded/*/; do
   id=$(basename $d)
   [ -f $d/patch.diff ] || continue
   checks=$(python3 -c "import json,re,sys; m=json.load(open(\"$d/meta.json\")); print(\" \".join(dict.fromkeys(re.findall(r\"C\\d\\d\", m.get(\"caught_by\",\"\")))))")
-  git -C $VP_RUN_REPO apply $d/patch.diff 2>/dev/null || git -C $VP_RUN_REPO apply $d/patch.orig.diff 2>/dev/null || { echo "$id PATCH-DOES-NOT-APPLY"; continue; }
+  git -C $VP_RUN_REPO apply $PWD/$d/patch.diff 2>/dev/null || git -C $VP_RUN_REPO apply $PWD/$d/patch.orig.diff 2>/dev/null || { echo "$id PATCH-DOES-NOT-APPLY"; continue; }
   for c in $checks; do
     out=$(VERIF_REPO=$VP_RUN_REPO timeout 1500 ./check $c 2>&1 | grep "^VIOLATION\|^OK")
     case "$out" in
